@@ -40,7 +40,7 @@ Print Assumptions C08_deny.
 (* the veto comes before the unit lookup: a denied request for an unconfigured unit id is answered
    with exception 01 (the carve-out in C01's statement) *)
 Theorem C08_deny_unconfigured : forall (St : Type) (H : handler St) p role l units fr fc r u, frame_ok l fr ->
-  decode (f_pdu fr) = Valid fc r -> f_dest fr = DUnit u -> lookup u units = None -> p (kind_of r) u (arg_of r) role = false ->
+  decode (f_pdu fr) = Valid fc r -> f_dest fr = DUnit u -> lookup u (u_map units) = None -> p (kind_of r) u (arg_of r) role = false ->
   reply_of (handle_frame H l (AuthHandler p role) units fr) = Ok (adu l (f_tx fr) u (exception_pdu fc 1)).
 Proof. exact @deny_unconfigured. Qed.
 Print Assumptions C08_deny_unconfigured.
@@ -86,7 +86,7 @@ Print Assumptions C08_dispatch.
 (* non-vacuity: read-only policy, role "op": the read is served, the write is denied with exception
    01 and reaches no handler, the next read is served again (per request) *)
 Example C08_nonvacuous :
-  run_model (LTcp, [mku 1 3 5 [] [] [] [] [] []], CRo [111; 112],
+  run_model (LTcp, [(1, 1)], [mku 1 3 5 [] [] [] [] [] []], CRo [111; 112],
              [mkf (Some 1) (DUnit 1) [3; 0; 0; 0; 1]; mkf (Some 2) (DUnit 1) [6; 0; 0; 18; 52]; mkf (Some 3) (DUnit 1) [3; 0; 0; 0; 1];
               mkf (Some 4) (DUnit 7) [6; 0; 0; 18; 52]])
   = "00010000000501030207A7,000200000003018601,00030000000501030207A7,000400000003078601|au.2.1.r0.1.6F70;rh.1.0-0;au.5.1.i0.6F70;au.2.1.r0.1.6F70;rh.1.0-0;au.5.7.i0.6F70|open"%string.
